@@ -172,13 +172,20 @@ class InjectPacketLoss:
         if link is None:
             raise ValueError(f"No link found: {self.source_name} -> {self.dest_name}")
 
-        original_loss = link.packet_loss_rate
         src = self.source_name
         dst = self.dest_name
         extra = self.loss_rate
 
         def activate(e: Event) -> None:
-            link.packet_loss_rate = min(1.0, original_loss + extra)
+            # Loss windows on one link may overlap: the link keeps its configured
+            # rate and the rates of the open windows, and applies all of them.
+            rates = getattr(link, "_fault_loss_rates", [])
+            if not rates:
+                link._fault_base_loss = link.packet_loss_rate  # type: ignore[attr-defined]
+            link._fault_loss_rates = [*rates, extra]  # type: ignore[attr-defined]
+            link.packet_loss_rate = min(
+                1.0, link._fault_base_loss + sum(link._fault_loss_rates)  # type: ignore[attr-defined]
+            )
             logger.info(
                 "[FaultInjection] Injected +%.1f%% packet loss on %s -> %s at %s",
                 extra * 100,
@@ -188,7 +195,14 @@ class InjectPacketLoss:
             )
 
         def deactivate(e: Event) -> None:
-            link.packet_loss_rate = original_loss
+            # Only this window's rate goes away; the configured rate is back once
+            # no window is open.
+            rates = list(getattr(link, "_fault_loss_rates", []))
+            if extra in rates:
+                rates.remove(extra)
+            link._fault_loss_rates = rates  # type: ignore[attr-defined]
+            base = getattr(link, "_fault_base_loss", link.packet_loss_rate)
+            link.packet_loss_rate = min(1.0, base + sum(rates)) if rates else base
             logger.info(
                 "[FaultInjection] Restored packet loss on %s -> %s at %s",
                 src,
